@@ -22,7 +22,6 @@ ZERO_PANICS = ("windows", "chunks", "chunks_exact", "rchunks", "step_by", "chunk
 REVIEWED_ZERO = {
     "minijinja::utils::memstr|windows": "the needle is a delimiter of the syntax configuration: the defaults are non-empty constants and SyntaxConfigBuilder::build rejects empty start and end delimiters",
     "minijinja::value::ops::range_step_backwards|step_by": "callers pass `step.unsigned_abs()` of a step that `slice` has tested against 0",
-    "minijinja::value::ops::slice::{closure#8}|step_by": "the closure captures the step that `slice` has tested against 0 before building it",
 }
 
 
@@ -106,6 +105,13 @@ def check_zero_sizes(ctx, prog, tag=""):
             n += 1
             ev = _nonzero_evidence(f, c.bb, c.args[1])
             key = "%s|%s" % (f.path, last)
+            if not ev and f.kind == "closure":
+                # structural (not keyed by a closure number): the size is the step its function tested against 0 before
+                # it built the closure
+                from . import c09 as _c09
+                if _c09.step_capture_is_tested(prog, f, c.args[1]):
+                    ev = "captured step, tested against 0 before the closure was built"
+                    key = "%s|%s" % ((f.root or f.path) + "::{closure}", last)
             why = ev or (REVIEWED_ZERO.get(key) and "reviewed - " + REVIEWED_ZERO[key])
             ctx.ob("C01.P20.size-that-panics-on-zero-is-non-zero", tag + key, bool(why),
                    ("accepted: " + why) if why else
